@@ -3,10 +3,10 @@
 package main
 
 import (
-	"encoding/hex"
-	"encoding/binary"
 	"context"
 	"crypto/sha256"
+	"encoding/binary"
+	"encoding/hex"
 	"errors"
 	"fmt"
 	"strconv"
@@ -46,17 +46,18 @@ func (nullSender) RequestBlock(context.Context, hotstuff.Hash) (*hotstuff.Block,
 func (s nullSender) Sub([]hotstuff.ID) (core.Sender, error) { return s, nil }
 
 type certFam struct {
-	env    *cryptoEnv
-	agg    bool
-	chains []*blockchain.Blockchain
-	auths  []*cert.Authority
-	blocks map[string]*hotstuff.Block
-	sigs   map[string]hotstuff.QuorumSignature
-	qcs    map[string]hotstuff.QuorumCert
-	tcs    map[string]hotstuff.TimeoutCert
-	aggs   map[string]hotstuff.AggregateQC
-	tmos   map[string]hotstuff.TimeoutMsg
-	nblk   int
+	env       *cryptoEnv
+	agg       bool
+	chains    []*blockchain.Blockchain
+	auths     []*cert.Authority
+	blocks    map[string]*hotstuff.Block
+	sigs      map[string]hotstuff.QuorumSignature
+	popFaults []popFault
+	qcs       map[string]hotstuff.QuorumCert
+	tcs       map[string]hotstuff.TimeoutCert
+	aggs      map[string]hotstuff.AggregateQC
+	tmos      map[string]hotstuff.TimeoutMsg
+	nblk      int
 }
 
 func kvArgs(a []string) map[string]string {
@@ -81,7 +82,7 @@ func (f *certFam) setup(scheme string, n int, cache uint, agg bool) {
 	if agg {
 		opts = append(opts, core.WithAggregateQC())
 	}
-	f.env = newCryptoEnv(scheme, n, opts...)
+	f.env = newCryptoEnvPop(scheme, n, f.popFaults, opts...)
 	f.agg = agg
 	f.chains, f.auths = nil, nil
 	for i := 0; i < n; i++ {
@@ -249,6 +250,21 @@ func (f *certFam) op(a []string) string {
 			}
 		} else {
 			restoreBLSKeys()
+		}
+		// pop=<id>:bad|none|swap<j>,... : what the other replicas hold as replica id's BLS proof of possession
+		f.popFaults = nil
+		if ps, ok := kv["pop"]; ok {
+			if a[1] != crypto.NameBLS12 {
+				return "bad-op"
+			}
+			for _, e := range strings.Split(ps, ",") {
+				t := strings.SplitN(e, ":", 2)
+				id, err := strconv.Atoi(t[0])
+				if len(t) != 2 || err != nil || id < 1 || id > n {
+					return "bad-op"
+				}
+				f.popFaults = append(f.popFaults, popFault{id, t[1]})
+			}
 		}
 		f.setup(a[1], n, uint(cache), kv["agg"] == "1")
 		return "ok"
